@@ -1,0 +1,37 @@
+//go:build verif
+// +build verif
+
+package builtInFunctions
+
+// Contracts for govc, the contract-based deductive verifier kept in /verif (see /verif/DESIGN.md).
+// Compiled only under the "verif" build tag; comment-only apart from ghost lemma functions.
+//
+// Vocabulary (defined in /verif/spec/world.spec): St is the ghost world state (address -> storage
+// key -> value), Kesdt/Knft/Krole/Knonce build protocol keys, val/frozen/paused/hasRole read it.
+
+//@ ginv zero != nil && bigval(zero) == 0
+//@ ginv seq(noncePrefix) == "ELRONDnonce" && cap(noncePrefix) == len(noncePrefix)
+//@ ginv seq(roleKeyPrefix) == "ELRONDroleesdt" && cap(roleKeyPrefix) == len(roleKeyPrefix)
+
+//@ func init
+
+// ---- ESDTLocalMint ---------------------------------------------------------------------------------
+
+//@ func (e *esdtLocalMint) ProcessBuiltinFunction
+//@   params e, acntSnd, acntDst, vmInput
+//@   results out, err
+//@   requires e != nil && forall(i, int, lock[i] == 0)
+//@   requires !isNil(e.marshalizer) && !isNil(e.pauseHandler) && !isNil(e.rolesHandler)
+//@   requires seq(e.keyPrefix) == "ELRONDesdt" && cap(e.keyPrefix) == len(e.keyPrefix)
+//@   requires !isNil(acntSnd) && vmInput != nil ==> addr(acntSnd) == seq(vmInput.CallerAddr)
+//@   requires WFvalues(St)
+//@   ensures[C11] (err == nil ==> out != nil && out.ReturnCode == 0) && (err != nil ==> out == nil)
+//@   ensures[C06] err == nil ==> out.GasRemaining <= vmInput.GasProvided && out.OutputAccounts == nil
+//@   ensures[C16] err == nil ==> vmInput.GasProvided - out.GasRemaining == e.funcGasCost
+//@   ensures[C17] err == nil ==> failed == old(failed)
+//@   ensures[C03] err == nil && !readFailed ==> hasRole(old(St), seq(vmInput.CallerAddr), seq(vmInput.Arguments[0]), "ESDTRoleLocalMint")
+//@   ensures[C02] err == nil && !readFailed ==> val(St, seq(vmInput.CallerAddr), Kesdt(seq(vmInput.Arguments[0]))) == val(old(St), seq(vmInput.CallerAddr), Kesdt(seq(vmInput.Arguments[0]))) + beval(seq(vmInput.Arguments[1]))
+//@   ensures[C02,C05] err == nil ==> forall(a, addr, k, bseq, !(a == seq(vmInput.CallerAddr) && k == Kesdt(seq(vmInput.Arguments[0]))) ==> St[a][k] == old(St)[a][k])
+//@   ensures[C04] err == nil && !readFailed && !vmInput.ReturnCallAfterError && seq(vmInput.CallerAddr) != seq(vmcommon.ESDTSCAddress) ==> !frozen(old(St), seq(vmInput.CallerAddr), Kesdt(seq(vmInput.Arguments[0]))) && !paused(old(St), Kesdt(seq(vmInput.Arguments[0])))
+//@   ensures[C15] err == nil ==> WFvalues(St)
+//@   modifies St, failed, readFailed
